@@ -46,3 +46,25 @@ def poly_deriv(coeffs):
 def reparam(P, a, b, u):
     """the curve u -> bern(P, a + u*(b-a))"""
     return bern(P, a + u * (b - a))
+
+
+def split_points(P, t):
+    """control points of the two sub-curves of a split at t:
+    left_i = bern(P[0..i], t), right_i = bern(P[i..n], t)"""
+    n = len(P) - 1
+    left = [bern(P[:i + 1], t) for i in range(n + 1)]
+    right = [bern(P[i:], t) for i in range(n + 1)]
+    return left, right
+
+
+def power_coeffs(P):
+    """coefficients of bern(P, t) in the monomial basis, highest power first:
+    c_j = C(n,j) * sum_{i<=j} (-1)^(j-i) C(j,i) P_i"""
+    n = len(P) - 1
+    out = []
+    for j in range(n, -1, -1):
+        s = 0
+        for i in range(j + 1):
+            s = s + ((-1) ** (j - i)) * ops.binom(j, i) * P[i]
+        out.append(ops.binom(n, j) * s)
+    return out
